@@ -8,6 +8,27 @@ BASE = "cd /repo && /venv/bin/python -m pytest -ra -q -p no:cacheprovider --time
 
 # id -> dict(level, text, note, technique, design_ref, engine)
 CLAIMS = {
+ "C06": dict(
+  level="model_checking",
+  text="Encrypt.tla states the artifact relation with a symbolic AEAD (info shape: bstr-wrapped tag-96 COSE_Encrypt, "
+       "AES-GCM-256, one direct recipient, wrapped key id; published IV + Enc_structure of the published header decrypt to "
+       "the firmware; digest and size describe the plaintext; create accepts the info unchanged; generate-info splits the "
+       "blob without altering a byte). Encrypt_MC checks the design (a stale AAD literal or a published IV other than the "
+       "used one is a counterexample) and the byte-level split/join. Real encrypt-and-generate / generate-info runs (library "
+       "+ CLI) over sizes x key-id widths x five digest algorithms are projected with independent primitives and judged by TLC.",
+  note="Trusted: TLC, own CBOR reader, cryptography AES-GCM decryption, hashlib. AES-KW is 'not supported yet' in the tool and "
+       "outside the property.",
+  technique="TLA+ spec (Encrypt.tla, Encrypt_MC.tla) + TLC model checking (symbolic AEAD) + TLC trace validation of real encrypt artifacts",
+  design_ref="DESIGN.md 4.12, 5 (C06)", engine="tlc"),
+ "C14": dict(
+  level="model_checking",
+  text="Encrypt_MC shows IV distinctness per key holds exactly under the fresh-generator assumption and that the published "
+       "IV must be the used one; conformance is trace validation of histories: thousands of real encryptions with one key "
+       "(same/different plaintext, one reused Encryptor, fresh objects, fresh interpreter processes), each an Iv event "
+       "(IV interned in order of first appearance; independent decryption with the published IV) judged by TLC.",
+  note="Detects structural reuse (constant / plaintext-derived / per-object or per-process counter), not a weak RNG.",
+  technique="TLA+ spec (Encrypt.tla FreshJudge, Encrypt_MC.tla) + TLC model checking + TLC trace validation of multi-process encryption histories",
+  design_ref="DESIGN.md 4.12, 5 (C14)", engine="tlc"),
  "C20": dict(
   level="model_checking",
   text="Version.tla defines Conv, SemLess (the property's precedence) and zero-padded ListLess; TLC checks the order "
